@@ -357,6 +357,10 @@ func run() int {
 			asserts = append(asserts, r.Ctx.Not(o.Goal))
 		}
 		scripts[i] = r.Ctx.Script(w.Prelude, asserts, nil)
+		if pat := os.Getenv("GOVC_DUMP_MATCH"); pat != "" && strings.Contains(o.Name, pat) {
+			os.MkdirAll("/tmp/govc_dump", 0o755)
+			os.WriteFile(filepath.Join("/tmp/govc_dump", safeName(o.Name)+fmt.Sprintf("_p%d.smt2", o.Path)), []byte(scripts[i]), 0o644)
+		}
 	}
 	for i, o := range all {
 		if o.Trivial || o.Closed {
@@ -368,7 +372,9 @@ func run() int {
 		go func() {
 			defer wg.Done()
 			defer func() { <-par }()
-			to := timeout
+			// first pass with a short budget: what it leaves undecided goes to the other integer encoding
+			// (full budget) and then to the escalation pass (three times the budget, low parallelism)
+			to := timeout * 0.4
 			if o.Cover {
 				to = 5
 			}
